@@ -42,6 +42,7 @@ class Recorder:
 
     def __init__(self):
         self.events = []
+        self.choice_args = []
         self.inside_choice = False
 
     def __enter__(self):
@@ -60,6 +61,7 @@ class Recorder:
             return v
 
         def choice(*a, **k):
+            self.choice_args.append((a, dict(k)))
             self.inside_choice = True
             try:
                 v = self.o_choice(*a, **k)
@@ -158,8 +160,22 @@ def run(seed, n):
         if err is not None or any(k == 'I' for k, _ in ev):
             kinds['skipped:' + str(err)] = kinds.get('skipped:' + str(err), 0) + 1
             continue
+        wcases = []
+
+        def walk(node, obj):
+            if node['k'] in ('OneOf', 'SomeOf'):
+                wcases.append('check_weights %s [%s]' % (coq_node(node), '; '.join(q(Fr(float(x))) for x in obj.transforms_ps)))
+            if node['k'] != 'leaf':
+                for kn, ko in zip(node['kids'], obj.transforms):
+                    walk(kn, ko)
+        walk(top, pipe)
+        # every choice call must be given the node's normalised weights
+        for a, kw in rec.choice_args:
+            if 'p' not in kw or kw['p'] is None:
+                wcases.append('false')
         draws = '[' + '; '.join(('DU %s' % q(v)) if k == 'U' else ('DC %s' % nat_list(v)) for k, v in ev) + ']'
-        coq = 'check_run %s %s %s %s' % (coq_node(top), 'true' if force else 'false', draws, nat_list(trace))
+        coq = '(check_run %s %s %s %s)%s' % (coq_node(top), 'true' if force else 'false', draws, nat_list(trace),
+                                             ''.join(' && (%s)' % w for w in wcases))
         cases.append({'tree': top, 'force': force, 'events': [(k, (float(v) if k == 'U' else v)) for k, v in ev],
                       'trace': trace, 'coq': coq})
         key = 'fired=%d' % len(trace)
